@@ -74,7 +74,7 @@ import nfc.tag.tt4
 
 from props import tagcommon as tc
 from vlib import ref_tlv, simdev, simtags, tagdev, vsched
-from vlib.engine import Leg, Violation, unexpected
+from vlib.engine import Leg, Violation, unexpected, twin_env
 
 PROPERTY = "C18"
 LEVEL = "exploration"
@@ -1853,3 +1853,10 @@ LEGS = [
              "attributes x tags present x iterations x follow-up; non-trivial "
              "= several targets including an unsupported or invalid one."),
 ]
+
+# the same searches with every nfc logger enabled down to the lowest level
+# (code that only runs, or only evaluates its arguments, when logging is on)
+_byl = dict((lg.name, lg) for lg in LEGS)
+LEGS += [twin_env(_byl[n], "log", {"VERIF_LOG": "debug"}, quick=q, thorough=t,
+                  shards_quick=2)
+         for n, q, t in [('connect', 300, 3000)] if n in _byl]
